@@ -66,9 +66,30 @@ def imported_facts(B, bb):
     return out
 
 
+def _prune_implied(facts):
+    """drop comparison facts that follow from another one on the same operands: a < b gives !(b < a) and a != b; a == b gives !(a < b) and !(b < a)"""
+    have = {(d, v) for d, v in facts}
+    drop = set()
+    for d, v in facts:
+        m = re.match(r'^(Lt|Eq|lt|eq)\((.*)\)$', d)
+        if not m or v is not True:
+            continue
+        from errguard import _split2
+        ab = _split2(m.group(2))
+        if not ab:
+            continue
+        a, b = ab
+        lt, eq = ('Lt', 'Eq') if m.group(1)[0].isupper() else ('lt', 'eq')
+        if m.group(1) in ('Lt', 'lt'):
+            drop |= {('%s(%s,%s)' % (lt, b, a), False), ('%s(%s,%s)' % (eq, a, b), False), ('%s(%s,%s)' % (eq, b, a), False)}
+        else:
+            drop |= {('%s(%s,%s)' % (lt, a, b), False), ('%s(%s,%s)' % (lt, b, a), False)}
+    return [f for f in facts if (f[0], f[1]) not in drop or (f[0], f[1]) not in have]
+
+
 def structural_facts(B, bb):
     """dominance facts, the `a || b` alternatives on the way to bb, and the facts imported from new validation helpers"""
-    return _definite_facts(B, bb) + disjunctive_facts(B, bb) + imported_facts(B, bb)
+    return _prune_implied(_definite_facts(B, bb) + disjunctive_facts(B, bb) + imported_facts(B, bb))
 import engine, inline
 
 TRIVIAL = re.compile(r'^(deref|deref_mut|as_ref|as_mut|borrow|borrow_mut|branch|from_residual|into|from|to_owned|clone|to_path_buf|to_string|new|'
@@ -164,12 +185,57 @@ def returns_of(F, cg, fn, amap=None, prefix=(), depth=0):
 def collect(F, cg, fns):
     import panics
     panics.PHI = True
+    panics.HELPER_RESULT = _helper_result
     _CTX['F'], _CTX['cg'] = F, cg
     try:
         return _collect(F, cg, fns)
     finally:
         panics.PHI = False
+        panics.HELPER_RESULT = None
         _CTX['F'] = _CTX['cg'] = None
+
+
+_HR = {'depth': 0}
+
+
+def _helper_result(t, argdescs):
+    """the value a straight-line helper that did not exist in the confirmed tree returns, with its parameters replaced by the actual arguments: a pure expression
+    moved into a new function is still that expression"""
+    F, cg = _CTX['F'], _CTX['cg']
+    if F is None or _HR['depth'] > 1:
+        return None
+    c = t.get('resolved') or t.get('callee') or callee_of(t) or ''
+    if not inline.is_new_helper(F, c):
+        return None
+    _HR['depth'] += 1
+    try:
+        rs = returns_of(F, cg, c)
+    finally:
+        _HR['depth'] -= 1
+    if len(rs) != 1 or rs[0][1] or not rs[0][0].startswith('value '):
+        return None
+    B = cg.body(c)
+    # only helpers without effects of their own
+    for i, tt in B.calls():
+        cc = (tt.get('callee') or callee_of(tt) or '')
+        if any((op_local(a) is not None and B.local_ty(op_local(a)).startswith('&mut')) for a in tt['args']) or errguard_io(cc):
+            return None
+    return inline.subst(rs[0][0][6:], {k + 1: d for k, d in enumerate(argdescs)})
+
+
+def walk_bodies(F, cg, fn, amap=None, prefix=(), depth=0, seen=()):
+    """fn's body and, recursively, the bodies of the helpers it calls that did not exist in the confirmed tree (with the argument substitution and the facts at the call)"""
+    B = cg.body(fn)
+    yield B, amap, tuple(prefix)
+    if depth >= 3:
+        return
+    for i, t in B.calls():
+        c = t.get('resolved') or t.get('callee') or callee_of(t) or ''
+        if c != fn and c not in seen and inline.is_new_helper(F, c):
+            here = sorted(set(prefix) | inline.fact_strings(structural_facts(B, i), canon_fact, amap))
+            sub = {k + 1: inline.subst(sdesc_operand(B, a), amap) for k, a in enumerate(t['args'])}
+            for x in walk_bodies(F, cg, c, sub, here, depth + 1, tuple(seen) + (fn,)):
+                yield x
 
 
 def _collect(F, cg, fns):
@@ -177,6 +243,7 @@ def _collect(F, cg, fns):
     for fn in fns:
         if fn not in F.bodies:
             continue
+        seen_pure = {}
         for _B, i, t, facts, _inl in inline.walk_calls(F, cg, fn, structural_facts, canon_fact):
             c = (t.get('callee') or callee_of(t) or '')
             short = c.split('::')[-1]
@@ -184,20 +251,29 @@ def _collect(F, cg, fns):
                 short = 'io::Error::' + short          # an error exit, not a plain constructor
             elif TRIVIAL.match(short) or pure_query(_B, t):
                 continue
+            # the operands handed to the callee (structurally described; parameters of an inlined helper replaced by the actual arguments)
+            full = inline.subst('%s(%s)' % (short, ','.join(sdesc_operand(_B, a) for a in t['args'])), _inl)
+            mut = any((op_local(a) is not None and _B.local_ty(op_local(a)).startswith('&mut')) for a in t['args'])
+            if not mut and not errguard_io(c) and not c.startswith(('<std::io::Error>::', '<errors::')) and short not in ('read_guard', 'write_guard'):
+                # a read-only (possibly fallible) computation repeated with the same operands: only its first evaluation is part of the skeleton, so that
+                # hoisting it into a `let` (or evaluating it again later) changes nothing
+                prev = seen_pure.setdefault((id(_B), full), [])
+                if any(_B.dominates(p, i) for p in prev):
+                    continue
+                prev.append(i)
             res.setdefault('%s|call %s' % (fn, short), []).append(facts)
-            # the operands handed to the callee (first three, structurally described; parameters of an inlined helper replaced by the actual arguments)
-            full = '%s(%s)' % (short, ','.join(sdesc_operand(_B, a) for a in t['args']))          # every operand, not only the first three
-            res.setdefault('%s|args %s' % (fn, short), []).append([inline.subst(full, _inl)])
+            res.setdefault('%s|args %s' % (fn, short), []).append([full])
         B = cg.body(fn)
-        for i, j, st in B.assigns():
-            pl, rv = st['place'], st['rv']
-            # stores through a reference (self.pos = .., file.data = .., entry.mode = ..): what is stored, where, under which facts
-            if pl['p'] and any(e['k'] == 'field' for e in pl['p']) and (pl['p'][0]['k'] == 'deref' or 1 <= pl['l'] <= B.nargs):          # also `mut self` builders
-                facts = sorted({'%s=%s' % (d, v) for d, v in structural_facts(B, i) if v != 'Ok'})
-                res.setdefault('%s|store %s' % (fn, sdesc_place(B, pl)), []).append([_rv_desc(B, rv)] + facts)
-            # struct literals of the crate's own types: the value of every field
-            elif rv['k'] == 'aggregate' and rv.get('agg') == 'adt' and rv.get('fields') and len(rv['ops']) > 1 and not str(rv.get('adt', '')).startswith(('std::', 'core::', 'alloc::')):
-                res.setdefault('%s|build %s' % (fn, str(rv.get('adt', '')).split('::')[-1]), []).append([_rv_desc(B, rv)])
+        for _B, amap, prefix in walk_bodies(F, cg, fn):
+            for i, j, st in _B.assigns():
+                pl, rv = st['place'], st['rv']
+                # stores through a reference (self.pos = .., file.data = .., entry.mode = ..): what is stored, where, under which facts
+                if pl['p'] and any(e['k'] == 'field' for e in pl['p']) and (pl['p'][0]['k'] == 'deref' or 1 <= pl['l'] <= _B.nargs):          # also `mut self` builders
+                    facts = sorted(set(prefix) | inline.fact_strings(structural_facts(_B, i), canon_fact, amap))
+                    res.setdefault('%s|store %s' % (fn, inline.subst(sdesc_place(_B, pl), amap)), []).append([inline.subst(_rv_desc(_B, rv), amap)] + facts)
+                # struct literals of the crate's own types: the value of every field
+                elif rv['k'] == 'aggregate' and rv.get('agg') == 'adt' and rv.get('fields') and len(rv['ops']) > 1 and not str(rv.get('adt', '')).startswith(('std::', 'core::', 'alloc::')):
+                    res.setdefault('%s|build %s' % (fn, str(rv.get('adt', '')).split('::')[-1]), []).append([inline.subst(_rv_desc(_B, rv), amap)])
         for v, facts in returns_of(F, cg, fn):
             if v.startswith('value '):
                 res.setdefault('%s|result' % fn, []).append([v[6:]] + facts)
